@@ -20,7 +20,7 @@ const NAME_PROBES: [&str; 12] = ["a", "b", "as", "bs", "ka", "kb", "kas", "kbs",
 /// are reached through the plural and prefix rules.
 const ALIAS_NAMES: [&str; 5] = ["kb", "kc", "bb", "cs", "kbs"];
 const ALIAS_TARGETS: [&str; 12] = ["kb", "kbs", "kc", "kcs", "b", "bs", "c", "cs", "bb", "bbs", "kkb", "kcss"];
-const DATESOUP: [&str; 12] = ["[", "]", "'", "-", ":", " ", "year", "day", "sec", "offset", "T", "#"];
+const DATESOUP: [&str; 17] = ["[", "]", "'", "-", ":", " ", "year", "day", "sec", "offset", "T", "#", "\t", "\u{a0}", "\u{3000}", "\r", "\n"];
 
 #[derive(Clone)]
 struct Dev {
@@ -521,7 +521,7 @@ impl Space for C13 {
         Meta {
             id: "C13",
             level: "exploration",
-            rule: "deviation-bounded: 0 deviations (shipped files) then every single deviation {delete line, duplicate line, swap with next, delete each token, replace each number by 0 / -1} of definitions.units (quick: every 40th line), currency.units and datepatterns.txt; every definitions file of <= 4 (thorough 5) tokens over a 29-token alphabet (incl. the numeral spellings `3.` and `.`), loaded into an empty context and into one holding `m !meter`; dependency cycles of length 1..12, 100, 1000, 2000, 5000 (thorough 10000) through 11 namespace shapes (units, prefixes, quantities, substance property, prefix/plural readings, reverse order, bare aliases, bare aliases that also read as prefix + base unit, prefix<->unit cycles closed by a prefix used as a prefix in both visiting orders, prefixes defined by names carrying the next prefix); forward/backward alias chains of 1000/3000 (thorough also 10000); 31 malformed substance/directive, base-unit long-name, zero-prefix and quantity-power-boundary files (self-naming `a !a`, mutual `a !b; b !a`, long names shadowed by units, prefixes and quantities); substance property values that are zero in 10 representations (exact, float zero from `0^.5`, float underflow `1e-300^1.5`, ...) x 3 positions, which must be reported, plus non-zero controls (`1e-400`), which must load; exponent boundary values (+-2^31, +-2^32, +-2^63, 1e30) on bases 0/1/-1 in prefix, unit, unit-power, substance and quantity definitions; name soups: every file of <= 4 (thorough 5) tokens over a 15-token alphabet of names, plurals, prefixed spellings and `!long` names, after which all 12 names are queried in 3 forms and canonicalized/looked up through the API; alias graphs: 1..2 (thorough 3) definitions `X Y` over 5 names x 12 targets reached through plural and prefix rules; four files with runs of 150000..1000000 blanks/tabs/continuations; currency JSON truncated at every (quick: every 9th) byte, every field deleted or type-replaced (8 edits); date-pattern soups. Oracle: the load returns without panic/abort/stack overflow within the limit; a problem is reported when a deleted single-line definition was needed by another and has no other reading, and for every cycle; afterwards `1 + 1` answers 2 and queries for loaded/missing names do not panic. Non-trivial = all; distinct by the text loaded".into(),
+            rule: "deviation-bounded: 0 deviations (shipped files) then every single deviation {delete line, duplicate line, swap with next, delete each token, replace each number by 0 / -1} of definitions.units (quick: every 40th line), currency.units and datepatterns.txt; every definitions file of <= 4 (thorough 5) tokens over a 29-token alphabet (incl. the numeral spellings `3.` and `.`), loaded into an empty context and into one holding `m !meter`; dependency cycles of length 1..12, 100, 1000, 2000, 5000 (thorough 10000) through 11 namespace shapes (units, prefixes, quantities, substance property, prefix/plural readings, reverse order, bare aliases, bare aliases that also read as prefix + base unit, prefix<->unit cycles closed by a prefix used as a prefix in both visiting orders, prefixes defined by names carrying the next prefix); forward/backward alias chains of 1000/3000 (thorough also 10000); 31 malformed substance/directive, base-unit long-name, zero-prefix and quantity-power-boundary files (self-naming `a !a`, mutual `a !b; b !a`, long names shadowed by units, prefixes and quantities); substance property values that are zero in 10 representations (exact, float zero from `0^.5`, float underflow `1e-300^1.5`, ...) x 3 positions, which must be reported, plus non-zero controls (`1e-400`), which must load; exponent boundary values (+-2^31, +-2^32, +-2^63, 1e30) on bases 0/1/-1 in prefix, unit, unit-power, substance and quantity definitions; name soups: every file of <= 4 (thorough 5) tokens over a 15-token alphabet of names, plurals, prefixed spellings and `!long` names, after which all 12 names are queried in 3 forms and canonicalized/looked up through the API; alias graphs: 1..2 (thorough 3) definitions `X Y` over 5 names x 12 targets reached through plural and prefix rules; four files with runs of 150000..1000000 blanks/tabs/continuations; currency JSON truncated at every (quick: every 9th) byte, every field deleted or type-replaced (8 edits); date-pattern soups of 4 (thorough 5) tokens over a 17-token alphabet that has every kind of white space (space, tab, NBSP, U+3000, CR, LF). Oracle: the load returns without panic/abort/stack overflow within the limit; a problem is reported when a deleted single-line definition was needed by another and has no other reading, and for every cycle; afterwards `1 + 1` answers 2 and queries for loaded/missing names do not panic. Non-trivial = all; distinct by the text loaded".into(),
             assumptions: vec![
                 "expression nesting depth beyond a few hundred is outside the statement's quantifier (chat-size / realistic files)".into(),
                 "the reporting clause is judged only where the harness can prove the deleted definition has no other reading".into(),
